@@ -166,6 +166,9 @@ type (
 		// rate limiter (bytes per second)
 		rateLimiter atomic.Value
 
+		// the session MTU in force, read by postProcess
+		mtu atomic.Int32
+
 		mu sync.Mutex
 
 		// callbackForOOB is an optional callback for handling received out-of-band (OOB) data.
@@ -552,6 +555,7 @@ func (s *UDPSession) SetWindowSize(sndwnd, rcvwnd int) {
 // SetMtu sets the maximum transmission unit(not including UDP header)
 func (s *UDPSession) SetMtu(mtu int) bool {
 	mtu = min(mtuLimit, mtu)
+	limit := mtu // the largest datagram allowed on the wire
 
 	mtu -= s.headerSize
 	if aead, ok := s.block.(*aeadCrypt); ok {
@@ -561,6 +565,9 @@ func (s *UDPSession) SetMtu(mtu int) bool {
 	s.mu.Lock()
 	defer s.mu.Unlock()
 	ret := s.kcp.SetMtu(mtu) // kcp mtu is not including udp header
+	if ret == 0 {
+		s.mtu.Store(int32(limit))
+	}
 	return ret == 0
 }
 
@@ -777,6 +784,11 @@ func (s *UDPSession) postProcess() {
 
 			// parity
 			for k := range ecc {
+				// a parity shard is as long as the longest data shard of its group:
+				// drop it if a smaller MTU has been set while the group was open
+				if len(ecc[k]) > int(s.mtu.Load()) {
+					continue
+				}
 				bts := defaultBufferPool.Get()[:len(ecc[k])]
 				copy(bts, ecc[k])
 				msg.Buffers = [][]byte{bts}
